@@ -83,6 +83,10 @@ deriving DecidableEq, Repr
 instance : Truthy DateTime := ⟨fun _ => true⟩
 def timeOf (p : TinyFlux.Spec.Point) : DateTime := ⟨p.time⟩
 def timestamp (t : DateTime) : Int := t.us
+/-- `t.replace(tzinfo=timezone.utc)` on a time read from storage (which holds UTC wall-clock times): the same instant -/
+def DateTime.replaceTzUtc (t : DateTime) : DateTime := t
+/-- `sorted(strings)` -/
+def sortedStr (l : List String) : List String := TinyFlux.Spec.sortStr l
 
 /-! ## query objects, as far as the index uses them
 
@@ -181,6 +185,10 @@ def append (s : Storage) (rows : List TinyFlux.Spec.Point) (temporary : Bool) : 
 def _swap_temp_with_primary (s : Storage) : M Storage := pure { _items := s._temp, _temp := [] }
 /-- `storage.reset()` -/
 def reset (s : Storage) : M Storage := pure { s with _items := [] }
+/-- `len(storage)`: the number of records -/
+def __len__ (s : Storage) : Nat := s._items.length
+/-- `storage._deserialize_timestamp(row)` -/
+def _deserialize_timestamp (_ : Storage) (row : TinyFlux.Spec.Point) : DateTime := timeOf row
 def _deserialize_measurement (_ : Storage) (row : TinyFlux.Spec.Point) : String := row.meas
 def _deserialize_storage_item (_ : Storage) (row : TinyFlux.Spec.Point) : TinyFlux.Spec.Point := row
 end Storage
